@@ -2,6 +2,14 @@ CONSTANTS NPts = 2
           NDays = 2
           NSlots = 3
           StitchCfg <- NoStitch
+          NDup = 1
+          MaxMult = 2
+          NDupSlots = 1
+          ZoneCfg <- NoZones
+          NZE = 1
+          NZ2 = 1
+          StitchDupCfg <- NoStitch
+          StitchNaNCfg <- NoStitch
 INIT Init
 NEXT Eval
 INVARIANT WrapMechIsLaw
